@@ -3,7 +3,11 @@ package main
 import (
 	"fmt"
 	"go/ast"
+	"go/parser"
 	"go/token"
+	"os"
+	"path/filepath"
+	"sort"
 	"strconv"
 	"strings"
 )
@@ -155,11 +159,22 @@ func c16Steps(c *Ctx, stmts []ast.Stmt, out *[]string) error {
 			}
 			cond := c16Norm(c.Src(s.Cond))
 			if cond == "err != nil" && s.Else == nil {
-				// plain error propagation: every statement of the body must be a return
+				// plain error propagation: every statement of the body must be a return (or, in
+				// genesis code, a panic(err), which is recorded)
+				panics := false
 				for _, b := range s.Body.List {
+					if es, ok := b.(*ast.ExprStmt); ok {
+						if name, ok := c16Callee(es.X); ok && name == "panic" {
+							panics = true
+							continue
+						}
+					}
 					if _, ok := b.(*ast.ReturnStmt); !ok {
 						return fmt.Errorf("error branch does more than return: %s", c.Src(s))
 					}
+				}
+				if panics {
+					*out = append(*out, "panic-on-err")
 				}
 				continue
 			}
@@ -188,12 +203,219 @@ func c16Steps(c *Ctx, stmts []ast.Stmt, out *[]string) error {
 				continue
 			}
 			*out = append(*out, r)
-		case *ast.ForStmt, *ast.RangeStmt:
-			*out = append(*out, "loop")
+		case *ast.ForStmt:
+			var inner []string
+			if err := c16Steps(c, s.Body.List, &inner); err != nil {
+				return err
+			}
+			*out = append(*out, "loop{"+strings.Join(inner, ";")+"}")
+		case *ast.RangeStmt:
+			var inner []string
+			if err := c16Steps(c, s.Body.List, &inner); err != nil {
+				return err
+			}
+			*out = append(*out, "range("+c16Norm(c.Src(s.X))+"){"+strings.Join(inner, ";")+"}")
+		case *ast.SwitchStmt:
+			if s.Tag != nil || s.Init != nil {
+				return fmt.Errorf("switch with tag/init not understood: %s", c.Src(s))
+			}
+			for _, cc := range s.Body.List {
+				cl := cc.(*ast.CaseClause)
+				var conds []string
+				for _, e := range cl.List {
+					conds = append(conds, c16Norm(c.Src(e)))
+				}
+				var inner []string
+				if err := c16Steps(c, cl.Body, &inner); err != nil {
+					return err
+				}
+				*out = append(*out, "case("+strings.Join(conds, ",")+"){"+strings.Join(inner, ";")+"}")
+			}
+		case *ast.IncDecStmt:
+			*out = append(*out, "incdec")
 		default:
 			return fmt.Errorf("statement shape not understood: %T %s", st, c.Src(st))
 		}
 	}
+	return nil
+}
+
+// c16Router: every consumer of app.MsgServiceRouter() (baseapp, gov, authz, wasm, ICA host) calls the
+// handler the router registered; does that handler call ValidateBasic before the service method?
+// Read from the cosmos-sdk version the tree's go.mod pins, in the module cache.
+func c16Router(c *Ctx) error {
+	gomod, err := os.ReadFile(filepath.Join(c.Repo, "go.mod"))
+	if err != nil {
+		return err
+	}
+	ver := ""
+	for _, ln := range strings.Split(string(gomod), "\n") {
+		f := strings.Fields(ln)
+		if len(f) >= 2 && f[0] == "github.com/cosmos/cosmos-sdk" && strings.HasPrefix(f[1], "v") {
+			ver = f[1]
+		}
+		if len(f) >= 4 && f[0] == "github.com/cosmos/cosmos-sdk" && f[1] == "=>" {
+			return fmt.Errorf("cosmos-sdk is replaced in go.mod (%s): the router must be re-read", ln)
+		}
+	}
+	if ver == "" {
+		return fmt.Errorf("cosmos-sdk version not found in go.mod")
+	}
+	cache := os.Getenv("GOMODCACHE")
+	if cache == "" {
+		gp := os.Getenv("GOPATH")
+		if gp == "" {
+			home, _ := os.UserHomeDir()
+			gp = filepath.Join(home, "go")
+		}
+		cache = filepath.Join(gp, "pkg", "mod")
+	}
+	path := filepath.Join(cache, "github.com", "cosmos", "cosmos-sdk@"+ver, "baseapp", "msg_service_router.go")
+	f, err := parser.ParseFile(c.Fset, path, nil, 0)
+	if err != nil {
+		return fmt.Errorf("cosmos-sdk %s router source: %v", ver, err)
+	}
+	// the function literal stored as msr.routes[...]: ValidateBasic must be called, and before the
+	// service method handler is invoked
+	found, validates := false, false
+	ast.Inspect(f, func(n ast.Node) bool {
+		as, ok := n.(*ast.AssignStmt)
+		if !ok || len(as.Lhs) != 1 || len(as.Rhs) != 1 {
+			return true
+		}
+		ix, ok := as.Lhs[0].(*ast.IndexExpr)
+		if !ok || !strings.HasSuffix(c.Src(ix.X), ".routes") {
+			return true
+		}
+		fl, ok := as.Rhs[0].(*ast.FuncLit)
+		if !ok {
+			return true
+		}
+		found = true
+		vbPos, callPos := token.NoPos, token.NoPos
+		for _, st := range fl.Body.List {
+			src := c.Src(st)
+			if is, ok := st.(*ast.IfStmt); ok && strings.Contains(c.Src(is.Init)+c.Src(is.Cond), "HasValidateBasic") &&
+				strings.Contains(c.Src(is.Body), ".ValidateBasic()") && strings.Contains(c.Src(is.Body), "return nil, err") {
+				if vbPos == token.NoPos {
+					vbPos = st.Pos()
+				}
+			}
+			if strings.Contains(src, "methodHandler(") && callPos == token.NoPos {
+				callPos = st.Pos()
+			}
+		}
+		validates = vbPos != token.NoPos && callPos != token.NoPos && vbPos < callPos
+		return false
+	})
+	if !found {
+		return fmt.Errorf("cosmos-sdk %s: msr.routes[...] = func literal not found in msg_service_router.go", ver)
+	}
+	c.P("(* cosmos-sdk %s baseapp/msg_service_router.go: the registered handler calls ValidateBasic before the service method *)", ver)
+	c.P("Definition sdk_version : string := %s.", CoqStr(ver))
+	c.P("Definition sdk_router_validates_basic : bool := %v.", validates)
+	c.Info("sdk_router_validates_basic", validates)
+	return nil
+}
+
+// c16DirectCallers: who, outside the msg service router, builds the tokenfactory msg server and calls
+// it directly (those callers must validate themselves: their skeletons are pinned below).
+func c16DirectCallers(c *Ctx) error {
+	var sites []string
+	for _, root := range []string{"app", "x", "util"} {
+		err := filepath.Walk(filepath.Join(c.Repo, root), func(path string, info os.FileInfo, err error) error {
+			if err != nil || info.IsDir() || !strings.HasSuffix(path, ".go") || strings.HasSuffix(path, "_test.go") {
+				return err
+			}
+			f, err := parser.ParseFile(c.Fset, path, nil, 0)
+			if err != nil {
+				return err
+			}
+			alias := ""
+			for _, im := range f.Imports {
+				if strings.Trim(im.Path.Value, "\"") == "github.com/palomachain/paloma/v2/x/tokenfactory/keeper" {
+					alias = "keeper"
+					if im.Name != nil {
+						alias = im.Name.Name
+					}
+				}
+			}
+			rel, _ := filepath.Rel(c.Repo, path)
+			inPkg := strings.HasPrefix(rel, "x/tokenfactory/keeper/")
+			if alias == "" && !inPkg {
+				return nil
+			}
+			for _, d := range f.Decls {
+				fd, ok := d.(*ast.FuncDecl)
+				if !ok || fd.Body == nil {
+					continue
+				}
+				n := 0
+				ast.Inspect(fd.Body, func(x ast.Node) bool {
+					ce, ok := x.(*ast.CallExpr)
+					if !ok {
+						return true
+					}
+					switch fn := ce.Fun.(type) {
+					case *ast.SelectorExpr:
+						if id, ok := fn.X.(*ast.Ident); ok && id.Name == alias && fn.Sel.Name == "NewMsgServerImpl" {
+							n++
+						}
+					case *ast.Ident:
+						if inPkg && fn.Name == "NewMsgServerImpl" {
+							n++
+						}
+					}
+					return true
+				})
+				if n > 0 {
+					sites = append(sites, fmt.Sprintf("%s:%s", rel, fd.Name.Name))
+				}
+			}
+			return nil
+		})
+		if err != nil {
+			return err
+		}
+	}
+	sort.Strings(sites)
+	c.P("(* functions that build the tokenfactory msg server themselves (not through the router) *)")
+	c.P("Definition direct_msg_server_callers : list string := %s.", CoqStrList(sites))
+	c.Info("direct_msg_server_callers", len(sites))
+	return nil
+}
+
+// c16GenesisOrder: is bank's InitGenesis ordered before tokenfactory's in app.go?
+func c16GenesisOrder(c *Ctx) error {
+	f, err := c.Parse("app/app.go")
+	if err != nil {
+		return err
+	}
+	bank, tf := -1, -1
+	ast.Inspect(f, func(n ast.Node) bool {
+		ce, ok := n.(*ast.CallExpr)
+		if !ok {
+			return true
+		}
+		sel, ok := ce.Fun.(*ast.SelectorExpr)
+		if !ok || sel.Sel.Name != "SetOrderInitGenesis" {
+			return true
+		}
+		for i, a := range ce.Args {
+			switch c16Norm(c.Src(a)) {
+			case "banktypes.ModuleName":
+				bank = i
+			case "tokenfactorymoduletypes.ModuleName":
+				tf = i
+			}
+		}
+		return false
+	})
+	if bank < 0 || tf < 0 {
+		return fmt.Errorf("SetOrderInitGenesis: bank / tokenfactory not found (%d, %d)", bank, tf)
+	}
+	c.P("(* app/app.go SetOrderInitGenesis *)")
+	c.P("Definition bank_genesis_before_tokenfactory : bool := %v.", bank < tf)
 	return nil
 }
 
@@ -260,6 +482,41 @@ func extractC16(c *Ctx) error {
 		{types, "MsgBurn", "ValidateBasic", "vb_burn"},
 		{types, "MsgChangeAdmin", "ValidateBasic", "vb_change_admin"},
 		{types, "MsgSetDenomMetadata", "ValidateBasic", "vb_set_denom_metadata"},
+	}
+	// ---- second round: bindings, params, genesis, index, libmeta ----
+	bindings, err := c.ParseDir("x/tokenfactory/bindings")
+	if err != nil {
+		return err
+	}
+	libmeta, err := c.ParseDir("util/libmeta")
+	if err != nil {
+		return err
+	}
+	fns = append(fns,
+		fn{bindings, "customMessenger", "DispatchMsg", "b_dispatch"},
+		fn{bindings, "", "PerformCreateDenom", "b_perform_create_denom"},
+		fn{bindings, "", "PerformMint", "b_perform_mint"},
+		fn{bindings, "", "ChangeAdmin", "b_change_admin"},
+		fn{bindings, "", "PerformBurn", "b_perform_burn"},
+		fn{bindings, "", "PerformSetMetadata", "b_perform_set_metadata"},
+		fn{bindings, "", "parseAddress", "b_parse_address"},
+		fn{keeper, "msgServer", "UpdateParams", "srv_update_params"},
+		fn{types, "MsgUpdateParams", "ValidateBasic", "vb_update_params"},
+		fn{keeper, "Keeper", "addDenomFromCreator", "k_add_denom_from_creator"},
+		fn{keeper, "Keeper", "GetDenomsFromCreator", "k_get_denoms_from_creator"},
+		fn{keeper, "Keeper", "InitGenesis", "k_init_genesis"},
+		fn{keeper, "Keeper", "ExportGenesis", "k_export_genesis"},
+		fn{types, "GenesisState", "Validate", "t_genesis_validate"},
+		fn{libmeta, "", "ValidateBasic", "libmeta_validate_basic"},
+	)
+	if err := c16Router(c); err != nil {
+		return err
+	}
+	if err := c16DirectCallers(c); err != nil {
+		return err
+	}
+	if err := c16GenesisOrder(c); err != nil {
+		return err
 	}
 	c.P("")
 	c.P("(* guard skeletons: ordered calls and non-error-propagation conditions *)")
